@@ -1290,10 +1290,15 @@ func (c *Client) readSlices() (message, topic []byte, err error) {
 				c.bigMessage = nil
 				c.peek = nil
 				err := c.discard(payloadSize)
+				if err == nil {
+					// confirm again
+					err = c.writeNoWait(c.pendingAck)
+				}
 				if err != nil {
 					c.toOffline()
-					return nil, nil, err
+					return nil, nil, err // keeps pendingAck to retry
 				}
+				c.pendingAck = c.pendingAck[:0]
 				continue
 			}
 
@@ -1323,7 +1328,11 @@ func (c *Client) readSlices() (message, topic []byte, err error) {
 				return message, topic, nil
 			}
 			if err == errDupe {
-				err = nil // can just skip
+				// can just skip, yet confirm again
+				err = c.writeNoWait(c.pendingAck)
+				if err == nil {
+					c.pendingAck = c.pendingAck[:0]
+				}
 			}
 		case typePUBACK:
 			err = c.onPUBACK()
@@ -1439,6 +1448,11 @@ func (c *Client) onPUBLISH(head byte) (message, topic []byte, err error) {
 			return nil, nil, err
 		}
 		if bytes != nil {
+			// The broker may have missed the PUBREC.
+			if len(c.pendingAck) != 0 {
+				return nil, nil, fmt.Errorf("mqtt: internal error: ack %#x pending during PUBLISH exactly once reception", c.pendingAck)
+			}
+			c.pendingAck = append(c.pendingAck, typePUBREC<<4, 2, byte(packetID>>8), byte(packetID))
 			return nil, nil, errDupe
 		}
 
